@@ -274,56 +274,64 @@ static void init_rule_rows(const char* cls, int gen, Solver& eigs, const V& zero
         }
 }
 
-static void init_rule()
+// every rule row for several (nev, ncv): the validation must not depend on how many values are sorted (nev = 1: a single value)
+static void init_rule_dims(int nev, int ncv)
 {
     const int n = 10;
     Eigen::MatrixXd A = sym_mat(n);
     Eigen::VectorXd z = Eigen::VectorXd::Zero(n), nz = Eigen::VectorXd::LinSpaced(n, 0.1, 1.0);
     {
         DenseSymMatProd<double> op(A);
-        SymEigsSolver<DenseSymMatProd<double> > e(op, 2, 6);
+        SymEigsSolver<DenseSymMatProd<double> > e(op, nev, ncv);
         init_rule_rows("sym", 0, e, z, nz);
     }
     {
         DenseSymShiftSolve<double> op(A);
-        SymEigsShiftSolver<DenseSymShiftSolve<double> > e(op, 2, 6, 0.37);
+        SymEigsShiftSolver<DenseSymShiftSolve<double> > e(op, nev, ncv, 0.37);
         init_rule_rows("symsh", 0, e, z, nz);
     }
     {
         Eigen::MatrixXcd AC = A.cast<std::complex<double> >();
         Eigen::VectorXcd zc = Eigen::VectorXcd::Zero(n), nzc = nz.cast<std::complex<double> >();
         DenseHermMatProd<std::complex<double> > op(AC);
-        HermEigsSolver<DenseHermMatProd<std::complex<double> > > e(op, 2, 6);
+        HermEigsSolver<DenseHermMatProd<std::complex<double> > > e(op, nev, ncv);
         init_rule_rows("herm", 0, e, zc, nzc);
     }
     {
         Eigen::MatrixXd G = A;
         G(0, 3) += 0.3;
         DenseGenMatProd<double> op(G);
-        GenEigsSolver<DenseGenMatProd<double> > e(op, 2, 6);
+        GenEigsSolver<DenseGenMatProd<double> > e(op, nev, ncv);
         init_rule_rows("gen", 1, e, z, nz);
     }
     {
         Eigen::MatrixXd G = A;
         G(0, 3) += 0.3;
         DenseGenRealShiftSolve<double> op(G);
-        GenEigsRealShiftSolver<DenseGenRealShiftSolve<double> > e(op, 2, 6, 0.37);
+        GenEigsRealShiftSolver<DenseGenRealShiftSolve<double> > e(op, nev, ncv, 0.37);
         init_rule_rows("genrs", 1, e, z, nz);
     }
     {
         Eigen::MatrixXd G = A;
         G(0, 3) += 0.3;
         DenseGenComplexShiftSolve<double> op(G);
-        GenEigsComplexShiftSolver<DenseGenComplexShiftSolve<double> > e(op, 2, 6, 0.37, 0.8);
+        GenEigsComplexShiftSolver<DenseGenComplexShiftSolve<double> > e(op, nev, ncv, 0.37, 0.8);
         init_rule_rows("gencs", 1, e, z, nz);
     }
     {
         Eigen::MatrixXd B = Eigen::MatrixXd::Identity(n, n) * 2.0 + 0.1 * A;
         DenseSymMatProd<double> op(A);
         DenseCholesky<double> bop(B);
-        SymGEigsSolver<DenseSymMatProd<double>, DenseCholesky<double>, GEigsMode::Cholesky> e(op, bop, 2, 6);
+        SymGEigsSolver<DenseSymMatProd<double>, DenseCholesky<double>, GEigsMode::Cholesky> e(op, bop, nev, ncv);
         init_rule_rows("gchol", 0, e, z, nz);
     }
+}
+
+static void init_rule()
+{
+    init_rule_dims(2, 6);
+    init_rule_dims(1, 4);
+    init_rule_dims(3, 8);
 }
 
 template <typename T>
